@@ -165,6 +165,8 @@ def _requested(facts):
             continue
         if norm(node) == "relation_types and '*' not in relation_types":
             whole = val
+        elif norm(node) == "not relation_types or '*' in relation_types":
+            whole = not val            # the same test, negated (De Morgan)
         _atoms(node, val, at)
     a, b = at.get('relation_types'), at.get("'*' in relation_types")
     if a is True and b is False:
@@ -338,12 +340,25 @@ def r4_importer_split(ctx, res):
         res.find(key, loc, f'relation lists are no longer paired with tables / target queries as {want}: {pairs}')
 
 
+def _unique_targets(res, key, v, it, what):
+    """the only return is unique_list(<the second component of every pair of self.<it>(*args), unfiltered>) - the iterable may be
+    a generator in place or a local list filled by a loop"""
+    from ..speccheck import as_loop
+    res.inst(key, v.loc(), '1 required effect')
+    rets = [r for r in v.rows if r[0] in ('return', 'yield', 'yield-from', 'raise')]
+    ok = len(rets) == 1 and rets[0][0] == 'return' and not rets[0][2] and rets[0][1].startswith('unique_list(') and rets[0][1].endswith(')')
+    if ok:
+        ok = as_loop(v, rets[0][1][len('unique_list('):-1]) == ('$1[1]', (f'for self.{it}(*args)',), frozenset())
+    if not ok:
+        res.find(key, v.loc(), f'{v.f.qualname}: {what}; expected `return unique_list((_2 for _1, _2 in self.{it}(*args)))`; '
+                               f'found {[r[1][:80] for r in rets][:3]}')
+
+
 def r5_dedupe(ctx, res):
     from ..speccheck import view, expect
     for cname, it in (('Synset', '_iter_relations'), ('Sense', '_iter_sense_relations')):
-        expect(res, f'get_related:{cname}', view(ctx, '_core', f'{cname}.get_related'),
-               [('return', f'unique_list((_2 for _1, _2 in self.{it}(*args)))')],
-               f'{cname}.get_related de-duplicates order-preservingly the targets of self.{it}(*args) (the requested types)')
+        _unique_targets(res, f'get_related:{cname}', view(ctx, '_core', f'{cname}.get_related'), it,
+                        f'{cname}.get_related de-duplicates order-preservingly the targets of self.{it}(*args) (the requested types)')
         v = view(ctx, '_core', f'{cname}.relations')
         key = f'relations:{cname}'
         res.inst(key, v.loc(), 'dict-as-ordered-set per relation name')
@@ -351,9 +366,8 @@ def r5_dedupe(ctx, res):
         if len(grp) != 1 or grp[0][2]:
             res.find(key, v.loc(), f'{cname}.relations no longer groups targets per relation name in an order-preserving mapping over '
                                    f'self.{it}(*args): {v.describe(("store", "call"))[:3]}')
-    expect(res, 'get_related_synsets', view(ctx, '_core', 'Sense.get_related_synsets'),
-           [('return', 'unique_list((_2 for _1, _2 in self._iter_sense_synset_relations(*args)))')],
-           'Sense.get_related_synsets forwards the requested types and de-duplicates order-preservingly')
+    _unique_targets(res, 'get_related_synsets', view(ctx, '_core', 'Sense.get_related_synsets'), '_iter_sense_synset_relations',
+                    'Sense.get_related_synsets forwards the requested types and de-duplicates order-preservingly')
     uv = view(ctx, '_util', 'unique_list')
     key = 'unique_list'
     res.inst(key, uv.loc(), 'dict-based order-preserving de-duplication')
